@@ -137,7 +137,7 @@ def tlc(module, cfg, specdir, workers=None, timeout=900, env=None, simulate=None
     sd = os.path.join(SPEC, specdir)
     meta = os.path.join(BUILD, "tlc", "%s-%d-%d" % (module, os.getpid(), _tlc_counter[0]))
     os.makedirs(meta, exist_ok=True)
-    jopts = ["-XX:+UseParallelGC", "-XX:ParallelGCThreads=2", "-Xmx" + heap, "-Xss64m", "-Djava.io.tmpdir=" + meta]
+    jopts = ["-XX:+UseParallelGC", "-XX:ParallelGCThreads=2", "-Xmx" + heap, "-Xss512m", "-Djava.io.tmpdir=" + meta]
     if deque: jopts.append("-Dtlc2.tool.queue.IStateQueue=StateDeque")
     cmd = ["java"] + jopts + ["-cp", _classpath(), "tlc2.TLC"]
     cmd += ["-metadir", meta, "-noGenerateSpecTE", "-config", cfg, "-workers", str(workers or NCPU)]
